@@ -25,7 +25,7 @@ REQUIRE = {"hist_cases": 80, "two_collection_cases": 13, "recording_metric_calls
            "unnormalized_cases": 20, "values_beyond_last_edge_cases": 8, "float_metric_cases": 8, "bins0_cases": 12,
            "table_cases": 18, "table_alpha_only": 3, "table_beta_only": 3, "table_both": 5, "legacy_tuple_cases": 3,
            "maxseqs_cases": 12, "maxseqs_subsampled": 9, "maxseqs_table_cases": 3, "background_checked": 1,
-           "d0_count_checked": 20, "distances_ge_256_cases": 3, "explicit_metric_object_cases": 5, "table_beta_column_first": 3}
+           "d0_count_checked": 20, "distances_ge_256_cases": 3, "explicit_metric_object_cases": 5, "table_beta_column_first": 3, "maxseqs_table_duplicated_index": 1}
 SHARDS = {"quick": 4, "thorough": 16}
 
 
@@ -277,7 +277,9 @@ def k_maxseqs(ctx, seqs, maxseqs, seqs2=None, table=False, np_seed=0):
     if table:
         ctx.count("maxseqs_table_cases")
         a = pd.DataFrame({"CDR3B": seqs, "tag": [f"r{i}" for i in range(len(seqs))]},
-                         index=[f"i{i}" for i in range(len(seqs))] if np_seed % 2 else [f"i{i % 3}" for i in range(len(seqs))])
+                         index=[f"i{i}" for i in range(len(seqs))] if (np_seed // 4) % 2 else [f"i{i % 3}" for i in range(len(seqs))])
+        if (np_seed // 4) % 2 == 0:
+            ctx.count("maxseqs_table_duplicated_index")
         b = None if seqs2 is None else pd.DataFrame({"CDR3B": seqs2, "tag": [f"q{i}" for i in range(len(seqs2))]},
                                                     index=[f"j{i}" for i in range(len(seqs2))])
         rec = make_recorder("lev", log, table_col="CDR3B")
